@@ -176,6 +176,7 @@ func runC05(c *Ctx, r *Report) {
 	r.Rule("C05/timeout-class", "deadline branches return ErrTimeoutError; a failed implicit privilege change returns ErrPrivilegeError", 10)
 	r.Rule("C05/deadline-chain", "context-bounded readers and workers hand errors on unwrapped or wrapped with %w, so the operation's errors.Is(err, DeadlineExceeded) sees an expired deadline", 1)
 	r.Rule("C05/op-options-applied", "channel.NewOperation and netconf.NewOperation apply the full per-operation option list (the per-operation timeout) in order", 2)
+	r.Rule("C05/opts-forwarded", "every operation of the channel and of the three drivers hands its full per-operation option list (which carries the per-operation timeout) to each option-taking library callee", 14)
 	r.Rule("C05/no-read-after-return", "spawner exits only after an unconditional receive of the worker's result; the worker performs no device I/O after sending", 4)
 	r.Rule("C05/closed-result-nil", "a value received from a result channel that its worker may close without sending is nil-checked before use", 1)
 
@@ -184,6 +185,7 @@ func runC05(c *Ctx, r *Report) {
 	checkDeadlineSources(c, r)
 	checkTimeoutClasses(c, r)
 	checkDeadlineChain(c, r)
+	checkOptsForwarded(c, r, "C05/opts-forwarded", [][2]string{{"channel", "Channel"}, {"driver/generic", "Driver"}, {"driver/network", "Driver"}, {"driver/netconf", "Driver"}})
 	checkOperationApplyLoop(c, r, "C05/op-options-applied", "channel")
 	checkOperationApplyLoop(c, r, "C05/op-options-applied", "driver/netconf")
 	checkNoReadAfterReturn(c, r)
